@@ -174,6 +174,18 @@ func (f *Frame) execCallStmt(call *ast.CallExpr, st *State, k func(*State, []Val
 				recvT = nil
 			}
 			recv = base
+			// implicit address-of for pointer-receiver methods called on an addressable variable
+			if rsig := fn.Type().(*types.Signature); rsig.Recv() != nil {
+				if _, wantPtr := rsig.Recv().Type().(*types.Pointer); wantPtr {
+					if _, isPtr := recv.(PtrV); !isPtr && len(path) == 1 {
+						if id, ok := ast.Unparen(sel.X).(*ast.Ident); ok {
+							if c := f.cellOf(info.ObjectOf(id)); c != nil {
+								recv = PtrV{To: c, Nil: TFalse}
+							}
+						}
+					}
+				}
+			}
 		}
 	}
 	sig := fn.Type().(*types.Signature)
